@@ -296,7 +296,7 @@ Definition unserialize (raw0 : bytes) : pres value :=
             if Nat.leb lq fq then PFail
             else let content := firstn (lq - fq - 1) (skipn (fq + 1) raw) in
                  if has_prefix origami_a content || has_prefix origami_o content then PUnmodelled
-                 else POk (VStr content)
+                 else PFail
           end
         end
       else PFail
